@@ -64,6 +64,22 @@ pub fn run(rep: &Report) -> i32 {
     par_for(&tuples, rep, 1, |i, tys| {
         drive::DUMMY.with(|env| check_tuple(rep, tys, i, env));
     });
+    // delivery next to a witness the program never inspects: `ign(witness::N0)` beside an inspected `witness::N1`
+    {
+        let mut jobs: Vec<(Ty, Ty, bool)> = vec![];
+        let inspected = [Ty::U(8), Ty::opt(Ty::U(1)), Ty::Bool, Ty::tup(vec![Ty::U(8), Ty::U(8)])];
+        for t0 in &pool {
+            for t1 in inspected.iter().chain(std::iter::once(t0)) {
+                for first in [true, false] {
+                    jobs.push((t0.clone(), t1.clone(), first));
+                }
+            }
+        }
+        rep.set("uninspected_neighbour_programs", json!(jobs.len()));
+        par_for(&jobs, rep, 4, |_, (t0, t1, ignored_first)| {
+            drive::DUMMY.with(|env| uninspected_neighbour(rep, t0, t1, *ignored_first, env));
+        });
+    }
     rep.finish(
         "state = (program, witness map); non-trivial = maps with at least one same-layout-other-type entry",
         &["nominal rule: Err iff a supplied, declared name carries a value whose type differs from the declared type", "absent witnesses are zero-filled by satisfy(); each literal is enumerated as a non-zero value and as zero so that both verdicts occur"],
@@ -79,6 +95,60 @@ fn wname(scheme: usize, i: usize) -> String {
         format!("N{i}")
     } else {
         MIXED[i % MIXED.len()].to_string()
+    }
+}
+
+/// `witness::N0` is passed to a function that ignores it, `witness::N1` is compared with a constant. The verdict must
+/// depend on N1 alone: on the pruned path always; on the unpruned path this is where known finding D1(ii) shows as a
+/// misread witness (the decoder gives the uninspected node a smaller type, the bits of its neighbours shift).
+fn uninspected_neighbour(rep: &Report, t0: &Ty, t1: &Ty, ignored_first: bool, env: &drive::Env) {
+    let mut h = gen::Helpers::default();
+    h.add_fn(FnDef { name: "ign".into(), params: vec![("a".into(), t0.clone())], ret: Some(Ty::U(8)), body: (vec![], Some(Box::new(dec(7)))) });
+    let lit1 = gen::vals(t1, 3).into_iter().find(|v| *v != zero_val(t1)).unwrap_or_else(|| zero_val(t1));
+    let ignored = vec![let_(Pat::id("v"), Ty::U(8), fcall("ign", vec![Expr::Witness("N0".into())])), Stmt::Expr(assert_(jet("eq_8", vec![var("v"), dec(7)])))];
+    let checked = vec![Stmt::Expr(assert_(h.eq_call(t1, Expr::Witness("N1".into()), val_expr(&lit1, t1))))];
+    let stmts: Vec<Stmt> = if ignored_first { ignored.into_iter().chain(checked).collect() } else { checked.into_iter().chain(ignored).collect() };
+    let mut items: Vec<Item> = h.fns.into_iter().map(Item::Fn).collect();
+    items.push(Item::Fn(FnDef { name: "main".into(), params: vec![], ret: None, body: (stmts, None) }));
+    let text = Program { items }.render();
+    rep.state();
+    rep.eval(1);
+    let built = match drive::build(&text, simfony::Arguments::default(), false) {
+        Ok(b) => b,
+        Err(o) => {
+            rep.violation("C05:program-not-compiled", format!("{o:?}"), json!({"kind": "compile", "program": text, "expect": "accept", "observed": "reject"}));
+            return;
+        }
+    };
+    let n1_vals: Vec<Val> = std::iter::once(lit1.clone()).chain(other_vals(t1, &lit1, 1)).collect();
+    for v0 in gen::vals(t0, 3).into_iter().take(3) {
+        for v1 in &n1_vals {
+            let map = vec![("N0".to_string(), v0.clone(), t0.clone()), ("N1".to_string(), v1.clone(), t1.clone())];
+            let expect = if *v1 == lit1 { "success" } else { "failure" };
+            rep.transition(2);
+            rep.eval(2);
+            rep.trace(2);
+            rep.nontrivial(1);
+            let show = || map.iter().map(|(n, v, t)| format!("{n}: {} = {}", t.render(), render_expr(&val_expr(v, t)))).collect::<Vec<_>>();
+            // pruned for the environment: the verdict must be exactly the source's
+            let pruned = drive::run_pruned(&built, drive::witness_map(&map), env);
+            let ok = |o: &RunOutcome| matches!((o, expect), (RunOutcome::Success, "success") | (RunOutcome::Failure(_), "failure") | (RunOutcome::SatisfyErr(_), "failure"));
+            rep.class(&format!("uninspected-neighbour pruned={}", pruned.class()));
+            if !ok(&pruned) {
+                rep.violation(format!("C05:pruned-expected-{expect}-got-{}", pruned.class()), format!("uninspected neighbour, map {:?}: satisfy_with_env path expected {expect}, got {pruned:?}", show()), json!({"kind": "run_pruned", "program": text, "args": [], "witness": map_json(&map), "debug": false, "env": "dummy", "expect": expect, "observed": pruned.class()}));
+            }
+            // unpruned: same demand; a decode error or a flipped verdict here is D1(ii)
+            let unpruned = drive::run(&built, drive::witness_map(&map), env);
+            rep.class(&format!("uninspected-neighbour unpruned={}", unpruned.class()));
+            if !ok(&unpruned) || matches!(unpruned, RunOutcome::SatisfyErr(_)) {
+                let sig = match &unpruned {
+                    RunOutcome::DecodeErr(_) => "C05:unpruned-decode-err:uninspected-neighbour".to_string(),
+                    RunOutcome::Success | RunOutcome::Failure(_) => "C05:unpruned-verdict-flipped:uninspected-neighbour".to_string(),
+                    o => format!("C05:unpruned-{}:uninspected-neighbour", o.class()),
+                };
+                rep.violation(sig, format!("uninspected neighbour, map {:?}: unpruned satisfy() path expected {expect}, got {unpruned:?}", show()), run_replay(&text, &map, false, expect, unpruned.class()));
+            }
+        }
     }
 }
 
